@@ -692,6 +692,9 @@ func (tic *TermInCommittee) validateViewChangeVotes(targetBlockHeight primitives
 			return fmt.Errorf("confirmation of memberId %s has block height %d which is different than targetBlockHeight %d ",
 				senderMemberIdStr, confirmationBlockHeight, targetBlockHeight)
 		}
+		if t := confirmation.SignedHeader().MessageType(); t != protocol.LEAN_HELIX_VIEW_CHANGE {
+			return fmt.Errorf("confirmation of memberId %s has a signed header of message type %s", senderMemberIdStr, t)
+		}
 		confirmationView := confirmation.SignedHeader().View()
 		if confirmationView != targetView {
 			return fmt.Errorf("confirmation of memberId %s has view %d which is different than targetView %d ",
@@ -748,6 +751,11 @@ func (tic *TermInCommittee) HandleNewView(nvm *interfaces.NewViewMessage) {
 	if err := tic.validateViewChangeVotes(nvmHeader.BlockHeight(), nvmHeader.View(), viewChangeConfirmations); err != nil {
 		//this.logger.log({ subject: "Warning", message: `blockHeight:[${blockHeight}], view:[${view}], HandleNewView from "${senderId}", votes is invalid` });
 		tic.logger.Info("LHMSG RECEIVED NEW_VIEW IGNORE - validateViewChangeVotes failed: %s", err)
+		return
+	}
+
+	if t := ppMessageContent.SignedHeader().MessageType(); t != protocol.LEAN_HELIX_PREPREPARE {
+		tic.logger.Info("LHMSG RECEIVED NEW_VIEW IGNORE - NewView.Preprepare has a signed header of message type %s", t)
 		return
 	}
 
